@@ -322,7 +322,7 @@ SUBS = {"norms": Sub(norm_pred, strategy=norm_cases), "minmax": Sub(minmax_pred,
 
 
 def jobs(tier):
-    n1, n2, n3 = (25, 40, 6) if tier == "quick" else (800, 1500, 150)
+    n1, n2, n3 = (25, 40, 6) if tier == "quick" else (3500, 6000, 600)
     return ([{"sub": "norms", "n": n1, "shard": i} for i in range(6)] +
             [{"sub": "minmax", "n": n2, "shard": i} for i in range(5)] +
             [{"sub": "collector", "n": n3, "shard": i} for i in range(5)])
